@@ -121,11 +121,17 @@ def check_cfg(ctx, rep, f, cfg):
             eft_bodies[b.ident()] = nm
     counts = {}
     total_sites = 0
+    pol0 = vg.Policy(f, "none")
     for b in f.live:
         sites = raw_sites(b)
         if not sites:
             continue
         total_sites += len(sites)
+        if not b.reachable and b.trait is None and pol0.is_accessor(b):
+            # a private function that only packages its arguments is inlined into every caller, where
+            # the aggregate is classified in context; it cannot be called from outside the crate
+            rep.ok("R1", b.ident() + " (private packaging helper)" + sfx, detail="classified at its call sites", nontrivial=False)
+            continue
         try:
             t = H.tree_of(f, b, "none")
         except vg.Unsupported as u:
